@@ -3,7 +3,7 @@ package main
 // C09: stop and drain at every point of a service's life, both protocols.
 //   case line:  <proto> <scenario> [params]
 //   scenarios:  stop-at-once | stop-while-binding | stop-before-start | stop-active <nconn> | stop-silent-backend |
-//               stop-backend-down | drain-then-stop <nconn> | stop-twice
+//               stop-backend-down | drain-then-stop <nconn> | stop-twice | stop-after-conn-loss <nconn> (redis) | accept-emfile
 //   output:     stop=<ok|HUNG> [drain=<ok|HUNG>] port=<closed|OPEN> clients=<closed|OPEN:n> backends=<closed|OPEN:n>
 //               goroutines=<ok|LEAK:+n> [established=<kept|BROKEN> new=<refused|SERVED>]
 
@@ -18,6 +18,7 @@ import (
 	"strings"
 	"sync"
 	"sync/atomic"
+	"syscall"
 	"time"
 
 	"github.com/samaritan-proxy/samaritan/host"
@@ -235,6 +236,127 @@ func runC09(line string) string {
 			c.(*net.TCPConn).CloseWrite()
 		}
 		settle(40 * time.Millisecond)
+	case "stop-after-conn-loss":
+		// backend connections are lost again and again while requests are outstanding on them and more keep coming;
+		// whatever connections the service made in the meantime, Stop closes them all
+		waitListening()
+		settle(20 * time.Millisecond)
+		cl.mu.Lock()
+		for _, nd := range cl.nodes {
+			nd.delayMs = 10
+		}
+		cl.mu.Unlock()
+		stopLoad := make(chan struct{})
+		var lw sync.WaitGroup
+		for i := 0; i < argn(2, 3); i++ {
+			c, err := net.DialTimeout("tcp", addr, time.Second)
+			if err != nil {
+				continue
+			}
+			clients = append(clients, c)
+			lw.Add(2)
+			go func(c net.Conn, i int) { // writer: batches of pipelined GETs over both nodes' slots
+				defer lw.Done()
+				var batch []byte
+				for k := 0; k < 150; k++ {
+					batch = append(batch, bulkArr([]byte("get"), []byte("k"+strconv.Itoa(i*1000+k))).bytes()...)
+				}
+				for {
+					select {
+					case <-stopLoad:
+						return
+					default:
+					}
+					c.SetWriteDeadline(time.Now().Add(time.Second))
+					if _, err := c.Write(batch); err != nil {
+						return
+					}
+					time.Sleep(2 * time.Millisecond)
+				}
+			}(c, i)
+			go func(c net.Conn) { // reader: discards the replies until the load stops
+				defer lw.Done()
+				b := make([]byte, 64<<10)
+				for {
+					select {
+					case <-stopLoad:
+						return
+					default:
+					}
+					c.SetReadDeadline(time.Now().Add(50 * time.Millisecond))
+					c.Read(b)
+				}
+			}(c)
+		}
+		for round := 0; round < 15; round++ {
+			time.Sleep(25 * time.Millisecond)
+			cl.nodes[round%2].killConns()
+		}
+		close(stopLoad)
+		lw.Wait()
+		cl.mu.Lock()
+		for _, nd := range cl.nodes {
+			nd.delayMs = 0
+		}
+		cl.mu.Unlock()
+		settle(100 * time.Millisecond)
+	case "accept-emfile":
+		// the process runs out of file descriptors for a moment: accept fails with EMFILE (a temporary error); once
+		// descriptors are available again the waiting connection is served
+		waitListening()
+		settle(20 * time.Millisecond)
+		var lim syscall.Rlimit
+		syscall.Getrlimit(syscall.RLIMIT_NOFILE, &lim)
+		low := lim
+		low.Cur = 400
+		if low.Cur > lim.Max {
+			low.Cur = lim.Max
+		}
+		syscall.Setrlimit(syscall.RLIMIT_NOFILE, &low)
+		var dummies []*os.File
+		for {
+			fd, err := os.Open("/dev/null")
+			if err != nil {
+				break
+			}
+			dummies = append(dummies, fd)
+			if len(dummies) > 5000 {
+				break
+			}
+		}
+		nw := "UNSERVED"
+		if len(dummies) > 0 && len(dummies) <= 5000 {
+			dummies[len(dummies)-1].Close() // room for exactly one: our side of the connection
+			dummies = dummies[:len(dummies)-1]
+			c, err := net.DialTimeout("tcp", addr, time.Second)
+			time.Sleep(80 * time.Millisecond) // accept fails meanwhile, and is retried
+			for _, d := range dummies {
+				d.Close()
+			}
+			syscall.Setrlimit(syscall.RLIMIT_NOFILE, &lim)
+			if err == nil {
+				clients = append(clients, c)
+				if proto == "redis" {
+					c.Write(bulkArr([]byte("ping")).bytes())
+				} else {
+					c.Write([]byte("hello"))
+				}
+				c.SetReadDeadline(time.Now().Add(time.Duration(float64(3*time.Second) * loadFactor)))
+				b := make([]byte, 16)
+				if n, _ := c.Read(b); n > 0 {
+					nw = "served"
+				}
+			} else {
+				nw = "NOCONNECT"
+			}
+		} else {
+			for _, d := range dummies {
+				d.Close()
+			}
+			syscall.Setrlimit(syscall.RLIMIT_NOFILE, &lim)
+			nw = "served" // descriptors could not be exhausted here: nothing observed
+		}
+		out += "new=" + nw + " "
 	case "stop-active", "drain-then-stop", "stop-silent-backend", "stop-backend-down", "stop-twice":
 		waitListening()
 		settle(20 * time.Millisecond)
@@ -439,7 +561,8 @@ func init() {
 					lines = append(lines, proto+" "+sc)
 				}
 			}
-			lines = append(lines, "redis stop-silent-backend 2", "tcp register-after-stop", "redis stop-halfclosed-silent", "redis drain-while-binding", "tcp drain-while-binding", "tcp drain-during-bind", "tcp stop-during-bind")
+			lines = append(lines, "redis stop-silent-backend 2", "tcp register-after-stop", "redis stop-halfclosed-silent", "redis drain-while-binding", "tcp drain-while-binding", "tcp drain-during-bind", "tcp stop-during-bind",
+				"redis stop-after-conn-loss 3", "redis stop-after-conn-loss 2", "tcp accept-emfile", "redis accept-emfile")
 			for i := 0; i < 6; i++ {
 				lines = append(lines, fmt.Sprintf("tcp limit-burst %d %d", 1+r.intn(3), 6+r.intn(20)))
 				lines = append(lines, fmt.Sprintf("tcp register-burst %d %d", 1+r.intn(4), 32+r.intn(64)))
